@@ -720,14 +720,15 @@ INVARIANT StackWellFormed
 FACTOR_INVS = ["JoinLaw", "JoinCommutes", "IndependentProduct", "MixLaw", "MargLaw", "StackWellFormed"]
 
 # leaf variables (paths in the nested dictionaries) and their top-level key
-PATHS = {1: ("a",), 2: ("b",), 3: ("c", "x"), 4: ("c", "y"), 5: ("d",)}
-TOPS = [1, 2, 3, 3, 4]
+PATHS = {1: ("a",), 2: ("b",), 3: ("c", "x"), 4: ("c", "y"), 5: ("d", "p", "q"), 6: ("d", "r")}
+TOPS = [1, 2, 3, 3, 4, 4]
 VALUE_LABELS = [
     [0, 1, 2],
     ["u", "v", "w"],
     [(0,), (0, 1), "s"],
     [None, 7, "x"],
     [(0, 0), (0, 1), (1, 0)],
+    [[0], [0, 1], None],          # unhashable, unsortable values
 ]
 SCALES = [(1, 2), (1, 2), (1, 4), (3, 4), (1, 1), (2, 1), (1, 10), (9, 10), (0, 1)]
 
@@ -757,7 +758,7 @@ def reorder(tab, rng):
 
 
 def rand_vars(rng, lo=1, hi=3):
-    return rng.sample([1, 2, 3, 4, 5], rng.randint(lo, hi))
+    return rng.sample([1, 2, 3, 4, 5, 6], rng.randint(lo, hi))
 
 
 def make_factor_cases(rng, n):
@@ -775,7 +776,7 @@ def make_factor_cases(rng, n):
                 keep = [v for v in allv if rng.random() < 0.5] or allv[:1]
                 prog += [instr("marg", keep=keep)]
         elif kind == "indep":
-            vs = rng.sample([1, 2, 3, 4, 5], rng.randint(2, 4))
+            vs = rng.sample([1, 2, 3, 4, 5, 6], rng.randint(2, 4))
             cut = rng.randint(1, len(vs) - 1)
             tabs = [rand_table(rng, vs[:cut]), rand_table(rng, vs[cut:]), rand_table(rng, vs[:1])]
             prog = [instr("load", 1), instr("load", 2), instr("and")]
@@ -1109,7 +1110,7 @@ EXH_PATHS = {1: ("a",), 2: ("b",), 3: ("c",)}
 
 def run_factor_exh(ctx, family):
     res = run_tlc(ctx.workdir / f"factor_exh_{family}", "C18_Factor", FACTOR_CFG,
-                  env={"BATCH_FILE": "none", "MODE": "exh", "EXH": family}, coverage=(ctx.tier == "thorough"), timeout=3000)
+                  env={"BATCH_FILE": "none", "MODE": "exh", "EXH": family}, timeout=3000)
     ctx.add_tlc(res, f"factor exh/{family}: every pair of tables of the family x (product | mixture), laws as invariants")
     bad = [v for v in res.violated if v in FACTOR_INVS]
     if bad:
